@@ -97,7 +97,7 @@ fn segments(seg: &Seg, data: &[u8]) -> Vec<Vec<u8>> {
         Seg::Every(k) => data.chunks((*k).max(1)).map(|c| c.to_vec()).collect(),
     }
 }
-fn coq_case(c: &Case) -> String {
+fn coq_case(c: &Case, polls: Option<&[(usize, usize)]>) -> String {
     let ps = coq_list(&c.pieces, |p| match p {
         // sentinel-prefixed hexadecimal numerals of at most 256 bytes each (fast to elaborate)
         Piece::Lit(h) => (0..h.len()).step_by(512).map(|i| format!("LitN 0x01{}", &h[i..(i + 512).min(h.len())])).collect::<Vec<_>>().join("; "),
@@ -107,7 +107,11 @@ fn coq_case(c: &Case) -> String {
         Seg::Cuts(v) => format!("(Cuts {})", coq_list(v, |x| x.to_string())),
         Seg::Every(k) => format!("(Every {})", k),
     };
-    format!("Case {} {} {}", ps, sg, c.with_b)
+    match polls {
+        // runner-B case: the poll/read schedule observed on the real dispatcher drives the gate model
+        Some(pl) => format!("CaseB {} {} {}", ps, sg, coq_list(pl, |x| format!("({}, {})", x.0, x.1))),
+        None => format!("Case {} {} {}", ps, sg, c.with_b),
+    }
 }
 
 // ------------------------------------------------------------------ observables
@@ -282,6 +286,11 @@ struct Disp {
     handler_statuses: usize,
     /// no response of the handler was written after a response of the dispatcher's own
     own_last: bool,
+    /// (method, target) of every request handed to the service, in order
+    reqs: Vec<(Vec<u8>, Vec<u8>)>,
+    /// observed schedule, run-length encoded: (bytes taken from the socket during one poll of the
+    /// connection future, number of consecutive such polls); runs of idle polls are capped at 3
+    polls: Vec<(usize, usize)>,
 }
 
 fn parse_responses(mut w: &[u8]) -> Vec<(u16, bool)> {
@@ -317,9 +326,14 @@ fn run_b(segs: &[Vec<u8>], delays: &[u8], wblock: u8) -> Disp {
         io.script_writes(&vec![WriteStep::Pending; wblock as usize]);
         let calls = Rc::new(Cell::new(0usize));
         let calls2 = calls.clone();
+        let reqs = Rc::new(std::cell::RefCell::new(Vec::<(Vec<u8>, Vec<u8>)>::new()));
+        let reqs2 = reqs.clone();
+        let reads = Rc::new(std::cell::RefCell::new(Vec::<usize>::new()));
+        let reads2 = reads.clone();
         let mut conn = Conn::start(ConnCfg::default(), io.clone(), move |mut req: Request| {
             let k = delays.get(calls2.get()).copied().unwrap_or(0);
             calls2.set(calls2.get() + 1);
+            reqs2.borrow_mut().push((req.method().as_str().as_bytes().to_vec(), req.uri().to_string().into_bytes()));
             async move {
                 if k % 2 == 1 {
                     PendingFor(k).await;
@@ -341,7 +355,12 @@ fn run_b(segs: &[Vec<u8>], delays: &[u8], wblock: u8) -> Disp {
         let io2 = io.clone();
         let drive = move |conn: &mut Conn| {
             for _ in 0..400 {
+                let before = io2.0.borrow().total_read;
+                let was_finished = conn.finished.is_some();
                 conn.poll();
+                if !was_finished {
+                    reads2.borrow_mut().push(io2.0.borrow().total_read - before);
+                }
                 if conn.finished.is_some() {
                     break;
                 }
@@ -374,6 +393,8 @@ fn run_b(segs: &[Vec<u8>], delays: &[u8], wblock: u8) -> Disp {
             eprintln!("WRITTEN: {:?}\nfinished={:?} shutdown_called={} unread={}", String::from_utf8_lossy(&written), conn.finished, io.0.borrow().shutdown_called, io.unread());
         }
         let closed = conn.finished.is_some() || io.0.borrow().shutdown_called > 0;
+        let reqs_v = reqs.borrow().clone();
+        let reads_v = reads.borrow().clone();
         Disp {
             own_statuses: rs.iter().filter(|r| !r.1 && r.0 != 100).map(|r| r.0).collect(),
             dispatched: calls.get(),
@@ -382,6 +403,30 @@ fn run_b(segs: &[Vec<u8>], delays: &[u8], wblock: u8) -> Disp {
             own_last: match rs.iter().position(|r| !r.1 && r.0 != 100) {
                 Some(i) => rs[i + 1..].iter().all(|r| !r.1),
                 None => true,
+            },
+            reqs: reqs_v,
+            polls: {
+                let mut out: Vec<(usize, usize)> = vec![];
+                // bytes the client sent that the dispatcher never took from the socket (it had
+                // already rejected / finished): offered to the model in one last poll, where the
+                // READ_DISCONNECT gate must ignore them
+                let total: usize = segs.iter().map(|s| s.len()).sum();
+                let taken: usize = reads_v.iter().sum();
+                let mut reads_v = reads_v.clone();
+                if taken < total {
+                    reads_v.push(total - taken);
+                }
+                for &n in reads_v.iter() {
+                    match out.last_mut() {
+                        Some(l) if l.0 == n => {
+                            if n != 0 || l.1 < 3 {
+                                l.1 += 1;
+                            }
+                        }
+                        _ => out.push((n, 1)),
+                    }
+                }
+                out
             },
         }
     })
@@ -837,16 +882,20 @@ fn emit_case(em: &mut Emitter, id: String, mut case: Case) {
                 Some(d) => {
                     let is_err = matches!(a.end, End::Err(_));
                     let is_io = a.end == End::Err("io");
-                    let count = if is_io || case.with_b == 2 { W::T("none", vec![]) } else { W::T("some", vec![W::N(d.dispatched as u128)]) };
-                    W::T("b", vec![W::L(d.own_statuses.iter().map(|s| W::N(*s as u128)).collect()), count, W::N(if is_err { d.closed as u128 } else { 2 })])
+                    let reqs = if is_io {
+                        W::T("none", vec![])
+                    } else {
+                        W::T("some", vec![W::L(d.reqs.iter().map(|(m, t)| { let mut f = field(m); f.extend(field(t)); W::Num(f) }).collect())])
+                    };
+                    W::T("b", vec![W::L(d.own_statuses.iter().map(|s| W::N(*s as u128)).collect()), reqs, W::N(if is_err { d.closed as u128 } else { 2 })])
                 }
             };
             let v = W::T("c01", vec![w_outcome(&a), vb]);
-            let show = format!("{}{}", show_outcome(&a), b.map(|d| format!(" disp={:?}", d)).unwrap_or_default());
+            let show = format!("{}{}", show_outcome(&a), b.as_ref().map(|d| format!(" disp={:?}", d)).unwrap_or_default());
             em.emit(CaseOut {
                 id,
                 input,
-                coq_case: Some(coq_case(&case)),
+                coq_case: Some(coq_case(&case, b.as_ref().map(|d| &d.polls[..]))),
                 expect: Some(v.coq()),
                 sig: show.clone(),
                 impl_show: show,
@@ -862,7 +911,7 @@ fn emit_case(em: &mut Emitter, id: String, mut case: Case) {
             em.emit(CaseOut {
                 id,
                 input,
-                coq_case: Some(coq_case(&case)),
+                coq_case: Some(coq_case(&case, None)),
                 expect: None,
                 sig: "panic".into(),
                 impl_show: format!("PANIC {p}"),
